@@ -289,6 +289,18 @@ def r4(ctx, chk):
     chk.ob(rule, "the decades key is deleted before relativedelta", "%s['decades']" % kw in dels, "",
            key={"function": f.key, "construct": "del kwargs['decades']"}, file=f.file, function=f.qual,
            line=f.node.lineno)
+    # ... on every path on which the key exists: the deletion is guarded by key MEMBERSHIP only (a test on the value
+    # skips the count 0 and hands decades=0.0 to relativedelta -> TypeError), or it is an unconditional pop with a default
+    from ..core.ctx import conjuncts as _cj, enclosing_tests as _et
+    for n in iter_own_nodes(f.node):
+        if isinstance(n, ast.Delete) and any(ast.unparse(t) == "%s['decades']" % kw for t in n.targets):
+            guards = [(" ".join(ast.unparse(a).split()), p_) for t_, pol in _et(f.node, n) for a, p_ in _cj(t_, pol)]
+            import re as _re2
+            about_kw = [(g, p_) for g, p_ in guards if _re2.search(r"\b%s\b" % _re2.escape(kw), g)]
+            ok = all((g == "'decades' in %s" % kw and p_) or (g == "'decades' not in %s" % kw and not p_) for g, p_ in about_kw)
+            chk.ob(rule, "the decades key is removed whenever it is present (guard: key membership only)", ok,
+                   "guards %s: for some counts the key survives and reaches relativedelta(**kwargs), which rejects it" % guards,
+                   key={"function": f.key, "construct": "decades removal guard"}, file=f.file, function=f.qual, line=n.lineno)
     # every (num, unit) match contributes (several units add up): a loop over PATTERN.findall
     loops = [n for n in iter_own_nodes(f.node) if isinstance(n, ast.For)]
     ok = any("findall" in ast.unparse(n.iter) or isinstance(n.iter, ast.Name) for n in loops) and \
